@@ -29,6 +29,11 @@ type reuseSlot struct {
 
 func newW(ctx *ev.Ctx) *W {
 	w := &W{Ctx: ctx, hasAVX512: cpuid.CPU.Has(cpuid.AVX512F)}
+	// recycled Object/Array destinations in the walkers: every driver but C20 walks from one goroutine
+	walk.SharedDst = ctx.Out.Property != "C20"
+	if ctx.Out.Property == "C20" && (ctx.Out.Mode == "coldstart") {
+		return w // nothing may touch the library before the trial
+	}
 	// warm the reuse slots so that rejected inputs reuse too
 	for bank := 0; bank < 4; bank++ {
 		for _, c := range []bool{false, true} {
